@@ -11,10 +11,10 @@ demo=$(ls "$D"/*_test.go 2>/dev/null | head -1)
 [ -z "$demo" ] && { echo "no demo test"; exit 2; }
 cp "$D"/*_test.go "$W"/ 2>/dev/null
 names=$(grep -ho '^func Test[A-Za-z0-9_]*' "$D"/*_test.go | sed 's/func //' | paste -sd'|')
-timeout 300 go test -vet=off -count=1 -run "^($names)\$" . >/tmp/conf-clean-$$.log 2>&1; clean=$?
+timeout 600 go test ${CONFIRM_RACE:+-race} -vet=off -count=1 -run "^($names)\$" . >/tmp/conf-clean-$$.log 2>&1; clean=$?
 git apply "$D/patch.diff" || { echo "patch does not apply"; exit 2; }
 go build ./... >/dev/null 2>&1; build=$?
-timeout 300 go test -vet=off -count=1 -run "^($names)\$" . >/tmp/conf-pat-$$.log 2>&1; pat=$?
+timeout 600 go test ${CONFIRM_RACE:+-race} -vet=off -count=1 -run "^($names)\$" . >/tmp/conf-pat-$$.log 2>&1; pat=$?
 rm -f "$W"/demo*_test.go
 for f in "$D"/*_test.go; do rm -f "$W/$(basename $f)"; done
 timeout 600 go test -vet=off -count=1 ./... >/tmp/conf-suite-$$.log 2>&1; suite=$?; grep -E "^(--- FAIL|FAIL|panic)" /tmp/conf-suite-$$.log | head -5
